@@ -195,6 +195,7 @@ def _slip39(ctx: Ctx, rng: _Rng) -> None:
     extendable = bool(ch.draw(2, "extendable"))
     ctx.log("config", groups, f"gt={gt}", f"e={exponent}", f"ext={extendable}", f"secret={n_bytes}B", f"pw={len(passphrase)}")
     ctx.state(f"cfg:g{min(len(groups), 5)}:gt{min(gt, 3)}:e{exponent}:x{int(extendable)}")
+    ctx.sample["slip39"] = {"groups": groups, "group_threshold": gt, "exponent": exponent, "extendable": extendable, "rng": rng.mode}
 
     if ch.chance(1, 8, "pw.unicode?"):
         ok, _ = _guarded(ctx, "slip39.split", lambda: slip39.mnemonics_from_master_secret(
